@@ -68,7 +68,25 @@ def e2(ctx):
                     starts += [x for (x, l2) in cfg.succ[w] if l2 is True]
                 else:
                     starts.append(w)
-            reach = cfg.reachable_from(starts, None, releases)
+            def null_edge(v_, w_, lab, name=v.name):
+                # edges on which the pointer is known to be null carry no reference
+                cn = cfg.nodes[v_]
+                if cn.kind != 'cond' or cn.ast is None or lab not in (True, False):
+                    return False
+                a = cn.ast
+                neg = False
+                while a is not None and a.kind == 'UnaryOperator' and a.op == '!':
+                    neg = not neg
+                    a = a.kids[0]
+                if a is not None and a.kind == 'BinaryOperator' and a.op in ('==', '!=') and \
+                        member_path(strip_casts(a.kids[0])) == name and a.kids[1] is not None and \
+                        a.kids[1].kind in ('CXXNullPtrLiteralExpr', 'GNUNullExpr', 'IntegerLiteral'):
+                    is_null_when_true = (a.op == '==') != neg
+                    return lab is is_null_when_true
+                if a is not None and member_path(strip_casts(a)) == name:
+                    return lab is neg       # `if (x)`: the False edge is the null edge
+                return False
+            reach = cfg.reachable_from(starts, null_edge, releases)
             # a `throw` leaves the function as surely as a `return` does
             leak = cfg.exit.idx in reach or cfg.throwexit.idx in reach
             py_between = []
